@@ -234,6 +234,11 @@ func canSucceed1(r *ssa.Return) bool {
 		if nonNilMaker(o) {
 			continue
 		}
+		// the parameter of a virtually inlined helper stands for the arguments at its
+		// call sites, which are among the origins already
+		if p, isP := o.(*ssa.Parameter); isP && paramOrigins(p, 0) != nil {
+			continue
+		}
 		// unknown value: non-nil only if r is reachable solely through o != nil
 		oo := o
 		ok, n := guardedBy(r, cmpFact(func(x ssa.Value) bool { return x == oo }, token.NEQ, vNil(), "err != nil"))
